@@ -305,6 +305,7 @@ fn check_g6(name: &str, g: &crate::gram::G, docs: &[String], res: &mut ShardResu
 }
 
 pub fn worker(ctx: &Ctx, res: &mut ShardResult) {
+    if ctx.shard == ctx.nshards - 1 && !ctx.mini() { check_big_tables(res); }
     for (i, (name, g, docs)) in g6().iter().enumerate() {
         if !ctx.mine(i + 5) { continue; }
         check_g6(name, g, docs, res);
@@ -341,6 +342,43 @@ pub fn worker(ctx: &Ctx, res: &mut ShardResult) {
             if res.too_many() { return; }
         }
     }
+}
+
+/// A grammar whose tables cross the 16-bit marks: 120 statement rules of fifteen steps over two choices of forty tokens give
+/// about 1800 parse states and a `ts_small_parse_table` of more than 65 535 entries (offsets into it are 32-bit in the
+/// generated map), plus 200 symbols. Only the table checks (and one sentence) run on it.
+fn big_tables_grammar() -> crate::gram::G {
+    use crate::gram::*;
+    let mut g = G::new("bigtab").rule("source", rep(sym("stmt"))).rule("stmt", choice((0..120).map(|i| sym(&format!("s{}", i))).collect()));
+    for i in 0..120 {
+        let mut v = vec![s(&format!("k{}", i))];
+        for j in 0..14 { v.push(sym(if j < 7 { "a" } else { "b" })); }
+        g = g.rule(&format!("s{}", i), seq(v));
+    }
+    g.rule("a", choice((0..40).map(|j| s(&format!("t{}", j))).collect())).rule("b", choice((0..40).map(|j| s(&format!("u{}", j))).collect())).extras(vec![pat("\\s")])
+}
+
+fn check_big_tables(res: &mut ShardResult) {
+    crate::case!("{}", json!({"part": "bigtab"}));
+    crate::run::compiler_phase(true);
+    let g = big_tables_grammar();
+    let gj = g.to_json();
+    let built = generate_in_dir("bigtab", &gj).ok().and_then(|(c_code, _)| {
+        let over = c_code.find("ts_small_parse_table_map[]").map(|p| c_code[p..].lines().take_while(|l| !l.contains("};")).filter_map(|l| l.trim().strip_suffix(',')?.rsplit("= ").next()?.parse::<u32>().ok()).max().unwrap_or(0)).unwrap_or(0);
+        lang::build_from_c("bigtab", &c_code, &LangSpec { name: "bigtab".into(), grammar_json: gj.clone(), scanner_c: None }, OptLevel::default()).ok().map(|l| (l, over))
+    });
+    crate::run::compiler_phase(false);
+    let Some((l, last_offset)) = built else { res.violation("ENGINE-bigtab-does-not-build", "the big-table grammar could not be generated or compiled".into(), json!({"part": "bigtab"})); return };
+    if last_offset <= u16::MAX as u32 { res.violation("ENGINE-bigtab-too-small", format!("largest small-table offset {}", last_offset), json!({"part": "bigtab"})); }
+    res.states += 1;
+    check_tables(&l.language, &g.to_value(), "bigtab", res);
+    let mut parser = Parser::new();
+    parser.set_language(&l.language).unwrap();
+    let d = "k3 t1 t2 t3 t4 t5 t39 t1 u2 u3 u4 u5 u6 u7 u8 k119 t0 t0 t0 t0 t0 t7 t0 u0 u0 u0 u0 u0 u0 u39";
+    let tree = parser.parse(d, None).unwrap();
+    res.transitions += 1;
+    if tree.root_node().has_error() { res.violation("rejects-string-in-language", format!("bigtab: {:?} parses with an error: {}", d, tree.root_node().to_sexp()), json!({"part": "bigtab", "text": d})); } else { res.nontrivial += 1; }
+    let _ = std::fs::remove_file(&l.so_path);
 }
 
 /// Re-run one recorded case: the whole grammar of a family / G6 case (it is cheap), or one zoo document.
